@@ -2,6 +2,7 @@
 package main
 
 import (
+	"encoding/json"
 	"flag"
 	"fmt"
 	"os"
@@ -88,6 +89,8 @@ func main() {
 			}
 		}
 		os.Exit(exit)
+	case "manifest":
+		writeManifest(vdir)
 	case "dump":
 		if len(args) < 2 {
 			usage()
@@ -164,4 +167,119 @@ func dumpFn(w *core.World, fn *ssa.Function) {
 			fmt.Printf("     if  T→b%d: %s\n         F→b%d: %s\n", b.Succs[0].Index, t, b.Succs[1].Index, f)
 		}
 	}
+}
+
+// notClaimed lists properties that have no table (yet) with the reason; kept next to the registry so MANIFEST.json is always regenerated consistently.
+var notClaimed = func() map[string]string {
+	m := map[string]string{}
+	for i := 1; i <= 20; i++ {
+		m[fmt.Sprintf("C%02d", i)] = "obligation table not armed yet in this revision (see DESIGN.md §8 build order); nothing is claimed"
+	}
+	return m
+}()
+
+func writeManifest(vdir string) {
+	type level struct {
+		Category  string `json:"category"`
+		Text      string `json:"text"`
+		DesignRef string `json:"design_ref"`
+	}
+	type check struct {
+		PropertyID string `json:"property_id"`
+		QuickCmd   string `json:"quick_cmd"`
+		Thorough   string `json:"thorough_cmd"`
+		Evidence   string `json:"evidence_file"`
+		Replay     string `json:"replay_cmd_template"`
+		Engine     string `json:"engine"`
+		Level      level  `json:"level_claimed"`
+		LevelNote  string `json:"level_note"`
+		Technique  string `json:"technique"`
+	}
+	type na struct {
+		PropertyID string `json:"property_id"`
+		Reason     string `json:"reason"`
+	}
+	var checks []check
+	var served []string
+	for _, id := range propIDs() {
+		p := core.Registry[id]
+		served = append(served, id)
+		kinds := map[string]bool{}
+		for _, r := range p.Rules("thorough") {
+			switch x := r.(type) {
+			case core.DOM:
+				kinds["DOM guarded-effect (cut-set dominance)"] = true
+			case core.MPT:
+				kinds["MPT must-pass-on-success"] = true
+			case core.POST:
+				kinds["POST must-follow"] = true
+			case core.WMC:
+				kinds["WMC who-may-call inventory"] = true
+			case core.CONE:
+				kinds["CONE call-graph no-reach"] = true
+			case core.IMPL:
+				kinds["IMPL literal-excludes-outcome"] = true
+			case core.FLAG:
+				kinds["FLAG loop-flag guard"] = true
+			case core.Custom:
+				kinds[x.Kind] = true
+			}
+		}
+		var ks []string
+		for k := range kinds {
+			ks = append(ks, k)
+		}
+		sort.Strings(ks)
+		checks = append(checks, check{
+			PropertyID: id,
+			QuickCmd:   "./run.sh check " + id + " quick",
+			Thorough:   "./run.sh check " + id + " thorough",
+			Evidence:   "/verif/evidence/" + id + ".json",
+			Replay:     "cat {path}; ./run.sh check " + id + " quick",
+			Engine:     "kverif",
+			Level: level{Category: "other",
+				Text:      "Static analysis of /repo's type-checked SSA: structural necessary conditions of the property are decided for all inputs/schedules at once; the behavioural remainder is listed as not covered. " + p.Explanation,
+				DesignRef: "DESIGN.md §3 " + id},
+			LevelNote: "Trusted: go/types + go/ssa (x/tools v0.50.0), the documented contracts of dependency calls, the audited exception rows in checker/props/" + id + "*.go. Not covered: " + strings.Join(p.NotCovered, "; "),
+			Technique: "static analysis over go/ssa: " + strings.Join(ks, ", "),
+		})
+	}
+	var nas []na
+	var naIDs []string
+	for id := range notClaimed {
+		if core.Registry[id] == nil {
+			naIDs = append(naIDs, id)
+		}
+	}
+	sort.Strings(naIDs)
+	for _, id := range naIDs {
+		nas = append(nas, na{id, notClaimed[id]})
+	}
+	m := map[string]any{
+		"version":   1,
+		"setup_cmd": "./run.sh build",
+		"hooks": map[string]any{
+			"guard":            "verif",
+			"enable":           "no hooks: the checks read /repo's working tree with the default build tags; nothing is compiled into the repository",
+			"baseline_off_cmd": "cd /repo && PATH=/opt/veriftools/go1.26.8/bin:$PATH GOTOOLCHAIN=local GOFLAGS=-mod=mod GOPROXY=off GOSUMDB=off go test -vet=off -count=1 -timeout 25m ./...",
+			"source_commits":   []string{},
+			"add_only":         true,
+		},
+		"engines": []map[string]any{{
+			"name": "kverif", "path": "/verif/checker", "serves_properties": served,
+			"kind_free_text": "repository-specific static analyzer (go/packages → go/types → go/ssa): cut-set dominance, must-pass, post-dominance, who-may-call inventories, call-graph cones, copy/field coverage, lockset, truth-table and comparison-shape rules; decides from source, never runs /repo",
+		}},
+		"checks":         checks,
+		"not_applicable": nas,
+		"notes":          "All checks are static (family: static analysis). Each claims level `other`: named structural necessary conditions, see DESIGN.md. known_findings.json lists recorded defects (KNOWN-FINDING lines) and the fix: commits made in /repo.",
+	}
+	if nas == nil {
+		m["not_applicable"] = []na{}
+	}
+	b, _ := json.MarshalIndent(m, "", " ")
+	if err := os.WriteFile(vdir+"/MANIFEST.json", append(b, '\n'), 0o644); err != nil {
+		fmt.Fprintln(os.Stderr, err)
+		os.Exit(2)
+	}
+	fmt.Println("wrote", vdir+"/MANIFEST.json", len(checks), "checks,", len(nas), "not applicable")
 }
